@@ -130,6 +130,10 @@ def examine(case, draw=None, stats=None):
         if s1 != base:
             out.append(V('log-replay', ['log-replay-differs'] + diff(base, s1)[:2], case,
                          {k: [base[k], s1[k]] for k in diff(base, s1)}))
+    if case.get('log_only'):
+        # a history that left the territory the rules (and so the card import and the interleaving clause) speak about -
+        # a pass in a jump-off, the bar moved before everybody jumped: the log replay clause is about EVERY competition
+        return out
     # (2) card export / import
     m = safe_call(c.to_matrix, ['bib'])
     if m[0] == 'exc':
@@ -200,8 +204,10 @@ def nontrivial(c):
     return c.state in ('jumpoff', 'drawn') or any(getattr(j, 'round_lim', 3) == 1 for j in c.jumpers)
 
 
-def do_prefix(ctx, bibs, hist, draw, c=None):
+def do_prefix(ctx, bibs, hist, draw, c=None, log_only=False):
     case = {'kind': 'history', 'bibs': list(bibs), 'calls': [hjsearch.enc(x) for x in hist]}
+    if log_only:
+        case['log_only'] = True
     stats = {}
     ctx.count()
     vs = examine(case, draw, stats)
@@ -223,8 +229,10 @@ def shrink(bucket):
     calls = list(case['calls'])
     n = len(case['bibs'])
 
+    extra = {'log_only': True} if case.get('log_only') else {}
+
     def fails(cs):
-        return any(v['sig'] == sig for v in examine({'kind': 'history', 'bibs': case['bibs'], 'calls': cs}))
+        return any(v['sig'] == sig for v in examine(dict(extra, kind='history', bibs=case['bibs'], calls=cs)))
     changed = True
     while changed:
         changed = False
@@ -235,7 +243,7 @@ def shrink(bucket):
                 changed = True
                 break
     if len(calls) < len(case['calls']):
-        c2 = {'kind': 'history', 'bibs': case['bibs'], 'calls': calls}
+        c2 = dict(extra, kind='history', bibs=case['bibs'], calls=calls)
         v = [v for v in examine(c2) if v['sig'] == sig][0]
         return {'case': v['case'], 'observed': v['observed']}
     return None
@@ -244,11 +252,26 @@ def shrink(bucket):
 def play_and_check(ctx, draw):
     marks = []
 
+    cut = []
+
     def on_call(p, call, vs, status):
         if status in ('ok', 'refused', 'diverged'):
             marks.append(len(p.all_calls))
+        elif status.startswith('truncated:') and not vs:
+            cut.append(status)
     p = hjplay.random_play(draw, on_call, noise=12, nmin=1, lenient=True)
     ctx.label('play')
+    if cut:
+        # the play left the territory the model speaks about: go on for a while with arbitrary calls and hold the live
+        # object to its own log replay (the one clause that is about every reachable competition)
+        calls = [('add', b) for b in p.m.order] + list(p.all_calls)
+        for k in range(30):
+            call = hjsearch.tail_call(p.c, list(p.m.order), draw)
+            hjimpl.apply(p.c, call)
+            calls.append(call)
+            if k in (9, 29):
+                do_prefix(ctx, p.m.order, calls, draw, log_only=True)
+        ctx.label('play-continued-beyond-the-model-(log-replay-only)')
     if not marks:
         return
     # the history is everything that was CALLED, refused calls included: a refused call must leave no trace, so the
